@@ -432,6 +432,33 @@ pub fn run(a: &Args) {
     out.write(&a.out, a.shards, "graph");
 }
 
+/// Stress shape for the shared lazy cache of a VM (the predicate-data hashes behind `PredicateExists`): every solution's
+/// only node forks many Compute children that all ask `PredicateExists` at once, and the LAST solution carries predicate
+/// data that takes milliseconds to hash, so that first use of the cache overlaps with unstarted children.  These cases are
+/// too large for the Coq model (megabytes of predicate data); they are compared between pool sizes only.
+pub fn gen_stress(rng: &mut Rng) -> GCase {
+    let c0 = ContentAddress([0x10; 32]);
+    let nsol = rng.range(2, 3) as usize;
+    let mut preds = vec![]; let mut programs = vec![]; let mut sols = vec![];
+    for i in 0..nsol {
+        let breadth = *rng.pick(&[8i64, 16, 32, 64]);
+        let mut ops = vec![push(breadth), COM];
+        for _ in 0..4 { ops.push(push(rng.next() as i64)); }
+        ops.extend([PEX, POP, COME, push(i as Word), POP, push(1)]);
+        let prog = Program(asm::to_bytes(ops).collect());
+        let pa = essential_hash::content_addr(&prog);
+        let pred = Predicate { nodes: vec![Node { edge_start: u16::MAX, program_address: pa.clone() }], edges: vec![] };
+        let pr = essential_hash::content_addr(&pred);
+        programs.push((pa, prog.0));
+        preds.push((c0.clone(), pr.clone(), pred));
+        // every solution takes a while to hash (so that an idle worker has time to steal a half of a parallel
+        // initialisation), the later ones longer
+        let data: Vec<Vec<Word>> = vec![vec![7 + i as Word; 8000]; (rng.range(4, 12) as usize) * (1 + 3 * i)];
+        sols.push(Solution { predicate_to_solve: PredicateAddress { contract: c0.clone(), predicate: pr }, predicate_data: data, state_mutations: vec![] });
+    }
+    GCase { preds, programs, sols, state: BTreeMap::new(), collect_all: rng.chance(1, 2), family: "stress_cache", known_class: None }
+}
+
 /// Engine `sched`: every case is run under thread pools of several sizes with perturbed task timing; the results must be
 /// identical to each other; the literal of one of the runs is then compared with the sequential model and reference in Coq.
 pub fn run_sched(a: &Args) {
@@ -443,6 +470,7 @@ pub fn run_sched(a: &Args) {
     let mut id = 0u64;
     let mut cases: Vec<GCase> = corpus();
     for i in 0..a.count as u64 { let mut rng = Rng::for_case(a.seed, 2, i); cases.push(gen_case(&mut rng)); }
+    for i in 0..(a.count as u64 / 8).max(4) { let mut rng = Rng::for_case(a.seed, 22, i); cases.push(gen_stress(&mut rng)); }
     let cases: Vec<Arc<GCase>> = cases.into_iter().map(Arc::new).collect();
     let mut hung = false;
     for c in &cases {
@@ -458,6 +486,21 @@ pub fn run_sched(a: &Args) {
                     Ok(o) => outs.push(o),
                     Err(_) => { hung = true; outs.push(Outcome { res: 4, gas: 0, sols: vec![], errs: vec![], err_sol: 0, runs: vec![], no_result: true }); break; }
                 }
+            }
+            if c.family == "stress_cache" {
+                // compared between pool sizes only; reported to Coq (as a failing placeholder) only when something is wrong
+                let canon = |o: &Outcome| format!("{} {} {:?} {:?} {}", o.res, o.gas, o.sols.len(), o.errs, o.err_sol);
+                let bad = hung || outs.iter().any(|o| canon(o) != canon(&outs[0])) || outs[0].res == 4;
+                out.bump("stress_cache_cases_x6_pools");
+                if bad {
+                    out.bump(if hung { "no_result_within_time_limit" } else { "pools_disagree" });
+                    out.push(id, "Build_graph_case [] [] [] [] false 4000%N 4 0 [] [] 0 []".into(),
+                        json!({"family": c.family, "solutions": c.sols.len(), "no_result": hung, "results": outs.iter().map(|o| canon(o)).collect::<Vec<_>>(),
+                               "what": "many Compute children ask PredicateExists at once while the predicate data of the last solution takes milliseconds to hash; regenerate with the same seed and case id"}), true);
+                }
+                if hung { break; }
+                id += 1;
+                continue;
             }
             let mut lits: Vec<(String, serde_json::Value, bool)> = outs.iter().map(|o| render(c, o)).collect();
             let first = lits[0].1["canon"].clone();
